@@ -29,13 +29,16 @@ def handle (j : Json) : Json :=
     if ss.isEmpty then jErr "empty" else
     let r := clReport ss
     jObj [("redchisq", jRat r.redchisq), ("meanRe", jRat r.meanRe), ("meanIm", jRat r.meanIm),
-          ("ndof", jNat r.ndof), ("nigndof", jNat r.nigndof)]
+          ("ndof", jNat r.ndof), ("nigndof", jNat r.nigndof),
+          ("redchisqVar", match r.redchisqVar with | some v => jRat v | none => Json.null),
+          ("meanReVar", match r.meanReVar with | some v => jRat v | none => Json.null)]
   | some "re", some ss =>
     match fBool? j "cplx", ss.mapM (fun r => r.mapM id) with
     | some c, some clean =>
       if clean.isEmpty || clean.any List.isEmpty then jErr "empty" else
       let r := reReport c clean
-      jObj [("rchisq", jRat r.rchisq), ("meanRe", jRat r.meanRe), ("meanIm", jRat r.meanIm), ("ndof", jNat r.ndof)]
+      jObj [("rchisq", jRat r.rchisq), ("meanRe", jRat r.meanRe), ("meanIm", jRat r.meanIm), ("ndof", jNat r.ndof),
+            ("rchisqVar", jRat r.rchisqVar), ("meanReVar", jRat r.meanReVar)]
     | _, _ => jErr "nan"
   | _, _ => jErr "bad-op"
 
